@@ -1,7 +1,9 @@
 #!/bin/bash
-# applies every behaviour-preserving patch of seeded/neutral/ to /repo, runs all quick checks, reverts; prints which checks raise an alarm
+# usage: tools/neutraltest.sh [seeded/neutral2]
+# applies every behaviour-preserving patch of the given directory (default seeded/neutral) to /repo, runs all quick checks, reverts; prints which checks raise an alarm
 cd /verif
-for p in seeded/neutral/N*.diff; do
+D=${1:-seeded/neutral}
+for p in $D/N*.diff; do
   if ! git -C /repo diff --quiet; then echo "repo not clean"; exit 2; fi
   git -C /repo apply $PWD/$p || { echo "$p does not apply"; continue; }
   t=$(cd /repo && /venv/bin/python -m pytest -q -p no:cacheprovider 2>&1 | tail -1)
